@@ -246,16 +246,23 @@ def search(ctx):
         r, nidx, z = float(rng.uniform(0.4, 0.9)), float(rng.uniform(1.45, 1.65)), float(rng.uniform(8, 20))
         ctx.tried("center_find", (N, round(cx, 2), round(cy, 2)))
         det = detector_grid(N, sp)
-        holo = calc_holo(det, Sphere(n=nidx, r=r, center=(cx * sp, cy * sp, z)), medium_index=1.33, illum_wavelen=0.66,
+        # a cropped hologram keeps its coordinates: the grid need not start at the origin, nor at equal x and y
+        ox, oy = (0.0, 0.0) if i % 2 else (float(rng.integers(0, 60)) * sp, float(rng.integers(0, 60)) * sp)
+        det = det.assign_coords(x=det.x + ox, y=det.y + oy)
+        holo = calc_holo(det, Sphere(n=nidx, r=r, center=(ox + cx * sp, oy + cy * sp, z)), medium_index=1.33, illum_wavelen=0.66,
                          illum_polarization=(1, 0))
         got = center_find(holo)
         err = math.hypot(got[0] - cx, got[1] - cy)
-        info = dict(kind="center", N=N, center=[cx, cy], r=r, n=nidx, z=z)
+        info = dict(kind="center", N=N, center=[cx, cy], origin=[ox, oy], r=r, n=nidx, z=z)
         if not (err <= 1.0):
             ctx.violation("C18:center-find", "centre finder off by %.2f px" % err, dict(got=list(map(float, got)), **info))
         pri = make_center_priors(holo)
-        if abs(pri[0].mu - got[0] * sp) > 1e-9 or abs(pri[1].mu - got[1] * sp) > 1e-9:
-            ctx.violation("C18:center-priors", "make_center_priors not centred on the found centre", info)
+        if abs(pri[0].mu - (ox + got[0] * sp)) > 1e-9 or abs(pri[1].mu - (oy + got[1] * sp)) > 1e-9:
+            ctx.violation("C18:center-priors", "make_center_priors not centred on the found centre (grid origin %r)" % ([ox, oy],), info)
+        # the default position priors are centred within one pixel of the true centre, with one pixel of uncertainty
+        if not (abs(pri[0].mu - (ox + cx * sp)) <= sp and abs(pri[1].mu - (oy + cy * sp)) <= sp and abs(pri[0].sd - sp) <= 1e-12 and abs(pri[1].sd - sp) <= 1e-12):
+            ctx.violation("C18:center-priors-true", "default position priors (%.3f, %.3f) are not within one pixel of the true centre (%.3f, %.3f) (grid origin %r)" % (
+                pri[0].mu, pri[1].mu, ox + cx * sp, oy + cy * sp, [ox, oy]), info)
     ctx.sample(dict(kind="search", crops_exhaustive_upto=top, center_find_cases=m))
 
 
